@@ -397,6 +397,20 @@ def p11_command_application(ctx):
                     p = path_to(cb, [te[1]], lambda x: x == kbb or cb.term(x)["k"] == "return", blocked_edges=lambda e: e.kind == "unwind", blocked_blocks=set(incs))
                     skip = skip or p is not None
                 r.add(f, "count += 1 exactly when del returned Ok(true)", dom and not skip, where(cb, incs[0]) if incs else where(cb, kbb), "" if dom and not skip else "increment sites %s, true edges %s" % (incs, sorted(true_edges)))
+                # every key is processed: an Ok return of the closure passed the None edge of the keys iterator
+                nxts = [(bb2, t2) for _, bb2, t2 in calls_in([cb], "std::iter::Iterator::next") if kbb in reach(cb, [cb.term(bb2)["t"]], blocked_edges=lambda e: e.kind == "unwind", blocked_blocks={bb2})]
+                none_edges = set()
+                for nb2, _t in nxts:
+                    for sb2 in cb.live_blocks():
+                        inf2 = cb.switch_info(sb2)
+                        if inf2 and inf2["kind"] == "variant":
+                            o2 = peel_var(inf2["on"])
+                            if o2[0] == "call" and o2[3] == (cb.path, nb2):
+                                for e2 in cb.succ[sb2]:
+                                    if inf2["arms"].get(e2.dst) == ["None"]:
+                                        none_edges.add((e2.src, e2.dst))
+                classes2 = {c for c, d, rb in ret_classes(cb, 0, lambda e: e.kind == "unwind" or (e.src, e.dst) in none_edges)}
+                r.add(f, "every key of a DEL is processed (the loop only ends when the keys are exhausted, or with Err)", bool(none_edges) and "ok" not in classes2, where(cb, kbb), "" if (none_edges and "ok" not in classes2) else "the closure can return Ok before all keys were deleted (break / early return)")
                 # Err from del is returned
                 for bb in sorted(cb.live_blocks()):
                     info = cb.switch_info(bb)
